@@ -18,6 +18,7 @@ type Block struct {
 	Votes    []abci.VoteInfo
 	Byz      []abci.Evidence
 	Txs      [][]byte
+	Pool     [][]byte // mempool content that is not in the block (see BlockSpec.Pool)
 	Hash     []byte
 	Header   abci.Header
 }
@@ -38,6 +39,9 @@ type BlockSpec struct {
 	Absent      []int    `json:"absent,omitempty"` // indexes into the last set that did not sign (kept below 1/3 power)
 	ByzIdx      []int    `json:"byz,omitempty"`    // indexes into the current set accused by tendermint evidence
 	Txs         [][]byte `json:"txs,omitempty"`
+	// Pool: transactions that sit in the node's mempool while this block is made but are not in it (they may be
+	// delivered later or never); a replica with ambient checks on runs them through CheckTx around the block
+	Pool [][]byte `json:"pool,omitempty"`
 }
 
 // Chain is the part of Tendermint the harness re-implements: it produces the
@@ -204,6 +208,7 @@ func (c *Chain) MakeBlock(spec BlockSpec) *Block {
 		Votes:    votes,
 		Byz:      byz,
 		Txs:      spec.Txs,
+		Pool:     spec.Pool,
 		Hash:     blk.Hash(),
 		Header:   tmtypes.TM2PB.Header(&blk.Header),
 	}
